@@ -243,7 +243,11 @@ func familyJobs(tier string, rng *lib.Rng, specials []string, foreign []string) 
 			js = append(js, Job{Cfg: "fam", Hist: fh.Hist, Entry: entry, Kind: kind, Form: form, Pre: pre, Script: script, Abs: abs,
 				Tags: append([]string{"form:" + form, "kind:" + kind, "family"}, tags...)})
 		}
-		mk("<names>", "names", "names", nil, "", "names")
+		if fh.Sandbox {
+			mk("<names>", "names", "names", nil, "", "names", "fam-sandbox")
+		} else {
+			mk("<names>", "names", "names", nil, "", "names")
+		}
 		for _, sf := range specials {
 			if knownPureSpecial[sf] {
 				continue
@@ -269,4 +273,72 @@ func familyJobs(tier string, rng *lib.Rng, specials []string, foreign []string) 
 		}
 	}
 	return js
+}
+
+// familyFollowUps: names that a names case found bound (non-value) in a member descending from a sandbox although the
+// sandbox + StandardSetup of this process (+ demo data) does not bind them are called with canary arguments in the same
+// history, in a fresh worker process (so that histories beginning with an unrestricted interpreter replay faithfully).
+func familyFollowUps(jobs []Job, results map[int]JobResult, expected map[string]string, unsafeName func(string) bool) []Job {
+	demo := map[string]bool{}
+	for _, n := range demoNames {
+		demo[n] = true
+	}
+	type cand struct {
+		hist  string
+		names []string
+	}
+	var cs []cand
+	for _, j := range jobs {
+		if j.Cfg != "fam" || j.Kind != "names" {
+			continue
+		}
+		sb := false
+		for _, t := range j.Tags {
+			if t == "fam-sandbox" {
+				sb = true
+			}
+		}
+		r, ok := results[j.ID]
+		if !sb || !ok || !strings.HasPrefix(r.Effects, "names:") {
+			continue
+		}
+		body := strings.SplitN(r.Effects[len("names:"):], ";types:", 2)[0]
+		var extra []string
+		for _, n := range strings.Split(body, ",") {
+			if _, exp := expected[n]; exp || n == "" || demo[n] || unsafeName(n) || strings.HasPrefix(n, "c08") || strings.HasPrefix(n, "<") {
+				continue
+			}
+			extra = append(extra, n)
+		}
+		if len(extra) > 0 {
+			cs = append(cs, cand{j.Hist, extra})
+		}
+	}
+	// histories that begin with an unrestricted interpreter first (they reproduce in a fresh process), short ones first
+	sort.SliceStable(cs, func(a, b int) bool {
+		fa, fb := strings.HasPrefix(cs[a].hist, "F"), strings.HasPrefix(cs[b].hist, "F")
+		if fa != fb {
+			return fa
+		}
+		return len(cs[a].hist) < len(cs[b].hist)
+	})
+	var out []Job
+	for i, c := range cs {
+		if i >= 6 || (i > 0 && strings.HasPrefix(cs[0].hist, "F") && !strings.HasPrefix(c.hist, "F")) {
+			break // only histories that replay in a fresh process when there are such
+		}
+		for k, n := range c.names {
+			if k >= 40 {
+				break
+			}
+			for _, sh := range [][]string{{aSecret}, {aCmd}, {aEnv}, {aOut, aVal}} {
+				j := forms("fam", "function", n, sh, false)[0]
+				j.Hist = c.hist
+				j.Form = "family-follow-up"
+				j.Tags = []string{"form:family-follow-up", "kind:function", "family", shapeTag(sh)}
+				out = append(out, j)
+			}
+		}
+	}
+	return out
 }
